@@ -313,6 +313,7 @@ type ValueProfile struct {
 	RawBytes  bool // strings of arbitrary bytes instead of lower-case ASCII
 	NilChance int  // percent chance for a pointer to be nil
 	HugePct   int  // percent chance for a string to be 66000..140000 bytes (page bodies beyond 64 KiB)
+	EdgePct   int  // percent chance for a scalar to be an edge value (min/max ints, NaN, -0, Inf, odd strings)
 }
 
 // Benign is the default profile: small ints, short ASCII strings, finite floats.
@@ -331,11 +332,57 @@ func genVal(r *Rng, v reflect.Value, p ValueProfile, depth int) {
 		v.SetBool(r.Chance(1, 2))
 	case reflect.Int, reflect.Int8, reflect.Int16, reflect.Int32, reflect.Int64:
 		v.SetInt(int64(r.Range(-50, 1000)))
+		if p.EdgePct > 0 && r.Intn(100) < p.EdgePct {
+			bits := uint(v.Type().Bits())
+			switch r.Intn(5) {
+			case 0:
+				v.SetInt(-1 << (bits - 1))
+			case 1:
+				v.SetInt(1<<(bits-1) - 1)
+			case 2:
+				v.SetInt(0)
+			case 3:
+				v.SetInt(-1)
+			default:
+				v.SetInt([]int64{127, 128, 16383, 16384, 65535, 65536}[r.Intn(6)])
+			}
+		}
 	case reflect.Uint, reflect.Uint8, reflect.Uint16, reflect.Uint32, reflect.Uint64:
 		v.SetUint(uint64(r.Range(0, 1000)))
+		if p.EdgePct > 0 && r.Intn(100) < p.EdgePct {
+			bits := uint(v.Type().Bits())
+			switch r.Intn(3) {
+			case 0:
+				v.SetUint(1<<bits - 1)
+			case 1:
+				v.SetUint(1 << (bits - 1))
+			default:
+				v.SetUint(0)
+			}
+		}
 	case reflect.Float32, reflect.Float64:
 		v.SetFloat(float64(r.Range(-400, 4000)) / 4)
+		if p.EdgePct > 0 && r.Intn(100) < p.EdgePct {
+			switch r.Intn(6) {
+			case 0:
+				v.SetFloat(math.NaN())
+			case 1:
+				v.SetFloat(math.Inf(1))
+			case 2:
+				v.SetFloat(math.Inf(-1))
+			case 3:
+				v.SetFloat(math.Copysign(0, -1))
+			case 4:
+				v.SetFloat(math.MaxFloat32)
+			default:
+				v.SetFloat(math.SmallestNonzeroFloat32)
+			}
+		}
 	case reflect.String:
+		if p.EdgePct > 0 && r.Intn(100) < p.EdgePct {
+			v.SetString([]string{"", "PAR1", "__#NIL#__", "\xff\xfe\x00", "\x00", "PAR1\x15\x00PAR1"}[r.Intn(6)])
+			return
+		}
 		n := r.Range(0, p.MaxStr)
 		if p.HugePct > 0 && r.Intn(100) < p.HugePct {
 			n = r.Range(66000, 140000)
